@@ -157,10 +157,37 @@ func (d *c13DumperCfg) options(log *c13Log) *DumpOptions {
 }
 
 type c13DumpCfg struct {
-	cl, rq *c13DumperCfg
+	cl, rq  *c13DumperCfg
+	clone   bool // the request is sent from Client.Clone() of the configured client
+	eachReq int  // > 0: request-level dump switched on by Client.EnableDumpEachRequest… (variant number); rq describes the resulting options, written to the request's own buffer (writer 30)
 }
 
-func (c c13DumpCfg) String() string { return "client=" + c.cl.String() + " request=" + c.rq.String() }
+func (c c13DumpCfg) String() string {
+	x := ""
+	if c.clone {
+		x += " via-Clone()"
+	}
+	if c.eachReq > 0 {
+		x += fmt.Sprintf(" via-EnableDumpEachRequest#%d", c.eachReq)
+	}
+	return "client=" + c.cl.String() + " request=" + c.rq.String() + x
+}
+
+// c13EachReq: the seven EnableDumpEachRequest… setters and the parts they leave enabled.
+var c13EachReq = []struct {
+	name  string
+	set   func(*Client) *Client
+	flags [4]bool
+}{
+	{},
+	{"EnableDumpEachRequest", (*Client).EnableDumpEachRequest, [4]bool{true, true, true, true}},
+	{"EnableDumpEachRequestWithoutBody", (*Client).EnableDumpEachRequestWithoutBody, [4]bool{true, false, true, false}},
+	{"EnableDumpEachRequestWithoutHeader", (*Client).EnableDumpEachRequestWithoutHeader, [4]bool{false, true, false, true}},
+	{"EnableDumpEachRequestWithoutRequest", (*Client).EnableDumpEachRequestWithoutRequest, [4]bool{false, false, true, true}},
+	{"EnableDumpEachRequestWithoutResponse", (*Client).EnableDumpEachRequestWithoutResponse, [4]bool{true, true, false, false}},
+	{"EnableDumpEachRequestWithoutResponseBody", (*Client).EnableDumpEachRequestWithoutResponseBody, [4]bool{true, true, true, false}},
+	{"EnableDumpEachRequestWithoutRequestBody", (*Client).EnableDumpEachRequestWithoutRequestBody, [4]bool{true, false, true, true}},
+}
 
 func c13GenDumper(s *verifh.Session, base int, subset int, async bool) *c13DumperCfg {
 	r := s.Rand()
@@ -171,8 +198,8 @@ func c13GenDumper(s *verifh.Session, base int, subset int, async bool) *c13Dumpe
 	return d
 }
 
-// apply configures the client / request like a user would.
-func (c c13DumpCfg) apply(cl *Client, rq *Request, log *c13Log, viaSetOptions bool) {
+// applyClient configures the client like a user would and returns the client to send from.
+func (c c13DumpCfg) applyClient(cl *Client, log *c13Log, viaSetOptions bool) *Client {
 	if c.cl != nil {
 		opt := c.cl.options(log)
 		if viaSetOptions {
@@ -182,7 +209,17 @@ func (c c13DumpCfg) apply(cl *Client, rq *Request, log *c13Log, viaSetOptions bo
 			cl.EnableDump(opt) // Transport.EnableDump
 		}
 	}
-	if c.rq != nil {
+	if c.eachReq > 0 {
+		c13EachReq[c.eachReq].set(cl)
+	}
+	if c.clone {
+		cl = cl.Clone()
+	}
+	return cl
+}
+
+func (c c13DumpCfg) applyRequest(rq *Request, log *c13Log) {
+	if c.rq != nil && c.eachReq == 0 {
 		rq.SetDumpOptions(c.rq.options(log)).EnableDump()
 	}
 }
@@ -253,6 +290,31 @@ func c13Interleaves(events []string, seqs []string, sepOK bool) bool {
 		}
 	}
 	return false
+}
+
+// c13MatchFlat: got = sep* p1 sep* p2 … sep* with sep a CR or LF character.
+func c13MatchFlat(got string, parts []string) bool {
+	type st struct{ pos, idx int }
+	seen := map[st]bool{}
+	var rec func(pos, idx int) bool
+	rec = func(pos, idx int) bool {
+		k := st{pos, idx}
+		if seen[k] {
+			return false
+		}
+		seen[k] = true
+		if idx == len(parts) && pos == len(got) {
+			return true
+		}
+		if idx < len(parts) && strings.HasPrefix(got[pos:], parts[idx]) && rec(pos+len(parts[idx]), idx+1) {
+			return true
+		}
+		if pos < len(got) && (got[pos] == '\r' || got[pos] == '\n') {
+			return rec(pos+1, idx)
+		}
+		return false
+	}
+	return rec(0, 0)
 }
 
 // ================================================================= HTTP/1.1 capture peer
@@ -773,7 +835,7 @@ type c13RunOut struct {
 }
 
 // c13RunH1 executes the scenario once with a fresh client.
-func c13RunH1(peer *c13Peer, sc *c13Scenario, cfg *c13DumpCfg, viaSet bool, timeout time.Duration) c13RunOut {
+func c13RunH1(peer *c13Peer, sc *c13Scenario, cfg *c13DumpCfg, viaSet bool, timeout time.Duration, clone bool) c13RunOut {
 	peer.mu.Lock()
 	for k, v := range sc.scripts {
 		peer.scripts[k] = v
@@ -790,6 +852,12 @@ func c13RunH1(peer *c13Peer, sc *c13Scenario, cfg *c13DumpCfg, viaSet bool, time
 	if sc.expect {
 		cl.Transport.SetExpectContinueTimeout(400 * time.Millisecond)
 	}
+	out := c13RunOut{log: &c13Log{}}
+	if cfg != nil {
+		cl = cfg.applyClient(cl, out.log, viaSet)
+	} else if clone {
+		cl = cl.Clone() // the baseline run of a via-Clone() pair is sent from a clone as well
+	}
 	rq := cl.R()
 	for _, h := range sc.headers {
 		rq.SetHeader(h[0], h[1])
@@ -803,9 +871,8 @@ func c13RunH1(peer *c13Peer, sc *c13Scenario, cfg *c13DumpCfg, viaSet bool, time
 	case "chunked":
 		rq.SetBodyBytes([]byte(sc.body)).EnableForceChunkedEncoding()
 	}
-	out := c13RunOut{log: &c13Log{}}
 	if cfg != nil {
-		cfg.apply(cl, rq, out.log, viaSet)
+		cfg.applyRequest(rq, out.log)
 	}
 	url := "http://" + peer.addr() + sc.path
 	if sc.query != "" {
@@ -813,6 +880,10 @@ func c13RunH1(peer *c13Peer, sc *c13Scenario, cfg *c13DumpCfg, viaSet bool, time
 	}
 	resp, err := rq.Send(sc.method, url)
 	out.res = c13ResultOf(resp, err)
+	if cfg != nil && cfg.eachReq > 0 && resp != nil {
+		// the request's own buffer, read back the documented way; one write event for the oracle
+		out.log.events = append(out.log.events, c13Event{30, resp.Dump()})
+	}
 	out.cl = cl // flushed and stopped at judge time: the write loop may still be dumping its last piece
 	cl.CloseIdleConnections()
 	peer.waitIdle()
@@ -888,6 +959,18 @@ func c13Judge(p *c13Pending, answer string) {
 			seqs[p.seqOf[tk]] += p.tokens[tk]
 		}
 		ev := p.log.of(id)
+		if id == 30 {
+			// Response.Dump(): one flat string; parts in wire order, separators between them
+			var parts []string
+			for _, tk := range want[id] {
+				parts = append(parts, p.tokens[tk])
+			}
+			got := strings.Join(ev, "")
+			if !c13MatchFlat(got, parts) {
+				p.why = append(p.why, fmt.Sprintf("Response.Dump() (%d bytes) is not the selected parts %q in order (separators aside); got %q", len(got), want[id], c13Clip(got, 300)))
+			}
+			continue
+		}
 		// CR/LF-only writes are separators wherever they land: the library writes "\r\n" /
 		// "\r\n\r\n" to Output() after bodies, and the last CRLF of a chunked upload passes
 		// through the request-body wrapper.
@@ -957,17 +1040,35 @@ func TestVerif_C13_e2eh1(t *testing.T) {
 				sc.class = "h1-expect-continue-head-not-flushed"
 			}
 		}
+		if cfg.cl != nil && r.Intn(5) == 0 {
+			cfg.clone = true
+			cnt.add(s, "via-clone")
+		}
+		if c%11 == 7 && sc.class == "" && !sc.retry && !sc.expect {
+			// request-level dump through Client.EnableDumpEachRequest…, read back with
+			// Response.Dump(); small request bodies only (one flush after all dump calls, so
+			// the flat buffer is in wire order)
+			cfg.eachReq = 1 + r.Intn(7)
+			cfg.rq = &c13DumperCfg{base: 30, flags: c13EachReq[cfg.eachReq].flags}
+			if len(sc.body) > 1500 {
+				sc.body = sc.body[:1500]
+			}
+			if sc.bodyVia == "chunked" || sc.bodyVia == "reader" {
+				sc.bodyVia = "bytes"
+			}
+			cnt.add(s, "via-each-request")
+		}
 		timeout := 5 * time.Second
 		if cfg.rq != nil && cfg.rq.async {
 			timeout = 700 * time.Millisecond
 		}
 		viaSet := r.Intn(2) == 0
-		off, _ := c13Guard(timeout+2*time.Second, func() c13RunOut { return c13RunH1(peer, sc, nil, false, timeout) })
+		off, _ := c13Guard(timeout+2*time.Second, func() c13RunOut { return c13RunH1(peer, sc, nil, false, timeout, cfg.clone) })
 		margin := 3 * time.Second
 		if cfg.rq != nil && cfg.rq.async {
 			margin = 800 * time.Millisecond
 		}
-		on, hung := c13Guard(timeout+margin, func() c13RunOut { return c13RunH1(peer, sc, &cfg, viaSet, timeout) })
+		on, hung := c13Guard(timeout+margin, func() c13RunOut { return c13RunH1(peer, sc, &cfg, viaSet, timeout, cfg.clone) })
 		p := &c13Pending{
 			id:    fmt.Sprintf("h1 #%d %s %s %s", c, sc.name, cfg.String(), sc.method),
 			class: sc.class, log: on.log, cl: on.cl, tokens: map[string]string{}, seqOf: map[string]int{},
@@ -1038,7 +1139,7 @@ func TestVerif_C13_e2eh1(t *testing.T) {
 		pend = append(pend, p)
 	}
 	c13Finish(t, s, pend)
-	for _, must := range []string{"flow=retry", "flow=redirect", "flow=expect-reject", "flow=expect-continue", "feature=long", "feature=fold", "feature=many", "level=both", "client-async", "req-body-via-reader", "req-body-via-chunked", "baseline-ok"} {
+	for _, must := range []string{"flow=retry", "flow=redirect", "flow=expect-reject", "flow=expect-continue", "via-clone", "via-each-request", "feature=long", "feature=fold", "feature=many", "level=both", "client-async", "req-body-via-reader", "req-body-via-chunked", "baseline-ok"} {
 		if cnt[must] == 0 {
 			t.Errorf("generator never reached bucket %q", must)
 		}
